@@ -4,7 +4,7 @@ Property theorems for pkg/format/rtpav1 (encoder.go, decoder.go, as repaired by 
 commits) with mediacommon's LEB128, about the model in `Model/Codec/Av1.lean`.
 
   C06  c06_payload_le, c06_seq_consecutive, c06_seq_many, c06_pt_ssrc, c06_marker_only_last
-  C08  c08_inv_init, c08_inv_decode, c08_retained_le, c08_out_le, c08_parse_total (no fuel exhaustion)
+  C08  c08_inv_init, c08_inv_decode, c08_retained_le, c08_fragment_count_le, c08_out_le, c08_parse_total
   C03  c03_roundtrip, c03_roundtrip_many
   C07  c07_flush (from ANY state, no invariant needed), c07_resync
 
@@ -127,7 +127,7 @@ theorem c06_marker_only_last (e : Enc) (obus : List Bytes) (hc : ValidCfg e.cfg)
 
 /-! ## C08 -/
 
-theorem c08_inv_init (P : Nat) : Inv P {} := ⟨rfl, by simp, rfl, rfl, by simp, by simp⟩
+theorem c08_inv_init (P : Nat) : Inv P {} := ⟨rfl, by simp, rfl, rfl, by simp, by simp, by simp⟩
 
 /-- **C08**: the invariant is preserved by `Decode` on EVERY packet (any payload bytes, sequence
 number, timestamp, marker) of payload size ≤ `P`. -/
@@ -143,6 +143,17 @@ theorem c08_retained_le (P : Nat) (d : Dec) (hi : Inv P d) :
   have := hi.frag_le
   have := hi.fb_le
   omega
+
+/-- **C08 bounded number of retained slices**: every retained fragment is non-empty (an element of
+size 0 is refused by the element loop), so there are never more fragments than fragment bytes, and
+the frame buffer never holds more than `MaxOBUsPerTemporalUnit` OBUs. -/
+theorem c08_fragment_count_le (P : Nat) (d : Dec) (hi : Inv P d) :
+    d.fragments.length ≤ CodecAv1vp.av1MaxTemporalUnitSize + P ∧
+    d.frameBuffer.length ≤ CodecAv1vp.av1MaxOBUsPerTemporalUnit := by
+  have h1 := length_le_totalLen d.fragments hi.frag_ne
+  have h2 := hi.frag_le
+  rw [hi.frag_eq] at h2
+  exact ⟨by omega, by rw [← hi.fb_len]; exact hi.fb_cnt⟩
 
 /-- **C08 output bound**: no returned temporal unit exceeds `MaxOBUsPerTemporalUnit` OBUs or
 `MaxTemporalUnitSize` bytes. -/
@@ -235,6 +246,6 @@ example : Clean (runDec exDirty (encode exEnc exTU).2).1 := by decide
 example : (runDec (runDec exDirty (encode exEnc exTU).2).1 (encode (encode exEnc exTU).1 exTU).2).2
     = [.more, .more, .ok exTU] := by decide
 example : Inv 1500 { fragments := [[1, 2], [3]], fragmentsSize := 3, nextSeq := 77, frameBuffer := [[9]],
-                     frameBufferLen := 1, frameBufferSize := 1 } := ⟨by decide, by decide, by decide, by decide, by decide, by decide⟩
+                     frameBufferLen := 1, frameBufferSize := 1 } := ⟨by decide, by decide, by decide, by decide, by decide, by decide, by decide⟩
 
 end Rtsp.Codec.Av1
